@@ -1409,7 +1409,8 @@ class AstEval:
                 raise NotImplementedError(f"unknown lhs type {lhs} (got {var_name}) in assign")
             dot_count = var_name.count(".")
             if dot_count == 1:
-                State.set(var_name, val)
+                # an assigned None is a value, not "value omitted"
+                State.set(var_name, val if val is not None else str(val))
                 return
             if dot_count == 2:
                 State.setattr(var_name, val)
